@@ -261,7 +261,11 @@ func minimize(c project.Config, kind, file string, runs *int64) (project.Config,
 		return false
 	}
 	if !try(clone(c)) {
-		vlib.Fatalf("failure %s is not reproducible for %s", kind, show(&c))
+		// the same configuration does not fail the same way twice: what is written depends on
+		// something else than the configuration (map iteration order, say)
+		res := run(&c, file)
+		res.kind, res.detail = "written-bytes-not-a-function-of-the-configuration", "a "+kind+" failure on this configuration did not repeat on a second attempt"
+		return clone(c), res
 	}
 	shrink := func(s string, benign string, set func(*project.Config, string) bool) bool {
 		if s == benign {
@@ -920,7 +924,7 @@ func main() {
 		red, redRes := minimize(c, res.kind, file, &runs)
 		files <- file
 		minRuns.Add(runs)
-		sig := "C19:" + res.kind + ":" + culprits(&red)
+		sig := "C19:" + redRes.kind + ":" + culprits(&red)
 		r.Outcome("outcome", sig)
 		mu.Lock()
 		f := fails[sig]
